@@ -7,6 +7,7 @@ mod c05;
 mod c07;
 mod c09;
 mod c10;
+mod c15;
 mod c16;
 mod c17;
 mod stats;
@@ -34,6 +35,7 @@ fn main() {
             "C08" => c07::run08(&case),
             "C09" => c09::run(&case),
             "C10" => c10::run(&case),
+            "C15" => c15::run(&case),
             "C16" => c16::run(&case),
             "C17" => c17::run(&case),
             "C11" | "C12" | "C13" => stats::run(&case),
